@@ -12,7 +12,7 @@ TRUSTED = {
     'A5': 'A5 Fragment accessors are pure (each accessor returns its ghost twin)',
     'A6': 'A6 (discharged as far as shape and safety go) smawk::online_column_minima(init, n, f) calls f(m, i, j) only with i < j < n, i < m.len() and a well-shaped table m, never panics, '
           'terminates, and returns a back-pointer table of length n with m[0].0 == 0 and m[k].0 < k: PROVED in unit U24 on the source of the smawk version Cargo.lock pins (read from the '
-          'cargo registry), for every callback — no monotonicity needed — and for n <= 2^63 + 1 (beyond that the crate\'s own `finished + rows.len()` could overflow); U2 restates it. '
+          'cargo registry), for every callback — no monotonicity needed —, together with the fact that no write touches the finished prefix shown to the callback, and for n <= 2^63 + 1 (beyond that the crate\'s own `finished + rows.len()` could overflow); U2 restates it. '
           'That the table holds column MINIMA additionally needs total monotonicity, which nobody proves (optimality is bounded-only). '
           'The bounded contract A6.smawk.call_shape still checks the shape on the compiled crate (C03, C06)',
     'A7': 'A7 LineNumbers (RefCell memo of line numbers): PROVED in unit U23 (rewrite R17: RefCell<Vec> verified as a Vec behind &mut self; no two borrows overlap): `new` establishes and '
@@ -20,7 +20,7 @@ TRUSTED = {
           'index out of bounds nor overflow; and when the memo matches the table, get returns the number of back-pointer hops (the line number) and the memo keeps matching. '
           'In U2 the call stays abstract (any usize) because the memo sits behind &self: that the safety invariant holds at every call is the induction over the calls made by one cost closure '
           '(new, then only get, each with a well-shaped table and i inside it — which U24 proves of smawk); it needs nothing about the table\'s history. That the memo MATCHES the growing '
-          'tables (so that the line number picks the right width when several are listed) additionally needs smawk never to change a finished prefix — checked on the real crate by BEC A6.smawk.call_shape',
+          'tables (so that the line number picks the right width when several are listed) additionally needs smawk never to change a finished prefix — U24 proves that every write of an iteration lies beyond the prefix result[..finished + 1] the callbacks of that iteration are shown; also checked on the real crate by BEC A6.smawk.call_shape',
     'A8': 'A8 (discharged) termination of the loops of display_width and strip_ansi_escape_sequences is now PROVED: Verus forbids the prophetic remaining() in a decreases '
           'clause, so a ghost counter starts at the number of characters and the invariant remaining().len() <= counter shows every iteration consumes at least one; no '
           'exec_allows_no_decreases_clause is left anywhere',
